@@ -7,6 +7,8 @@ use crate::prng::Rng;
 pub enum Names {
     Plain,
     Clash,
+    /// names that collide after case conversion, Rust keywords, std type names
+    Idents,
 }
 
 #[derive(Clone, Copy, Debug, PartialEq, Eq)]
@@ -17,6 +19,8 @@ pub enum Terms {
     Mixed,
     /// same text under different quoting styles
     Quoting,
+    /// terminals whose generated names collide or need mangling
+    NameClash,
 }
 
 #[derive(Clone, Debug)]
@@ -161,6 +165,10 @@ pub fn lr_profiles() -> Vec<Profile> {
     ]
 }
 
+const IDENT_NAMES: [&str; 30] = [
+    "a_b", "AB", "Ab", "A_B", "ab", "type", "fn", "struct", "Self", "self_", "Box", "Vec", "Option", "Token",
+    "T1", "t1", "_x", "S0", "match", "loop", "crate", "super", "Result", "String", "Range", "dyn", "impl", "Ok", "Err", "trait",
+];
 const PLAIN_NAMES: [&str; 8] = ["S", "A", "B", "C", "D", "E", "F", "G"];
 const CLASH_NAMES: [&str; 24] = [
     "S", "SOpt", "SList", "SGroup", "SOpt0", "SList0", "SGroup0", "S0", "A", "AOpt", "AList",
@@ -215,6 +223,24 @@ pub fn gen_terms(rng: &mut Rng, kind: Terms, n: usize) -> Vec<TermDef> {
             rng.shuffle(&mut pool);
             pool.truncate(n);
             pool
+        }
+        Terms::NameClash => {
+            let mk = |text: &str, quote: Quote| TermDef { text: text.into(), quote, la: None, samples: vec!["x".into()], states: vec![] };
+            let mut pool = vec![
+                mk("+", Quote::Raw), mk("\\+", Quote::Legacy), mk("[+]", Quote::Regex), mk("a|b", Quote::Raw), mk("a\\|b", Quote::Legacy),
+                mk("0", Quote::Raw), mk("1a", Quote::Raw), mk("\u{e9}", Quote::Raw), mk("\u{2211}", Quote::Raw), mk("if", Quote::Raw), mk("if", Quote::Legacy),
+                mk("_", Quote::Raw), mk("__", Quote::Raw), mk("Plus", Quote::Raw), mk("plus", Quote::Raw), mk("PLUS", Quote::Legacy), mk("self", Quote::Raw),
+                mk("type", Quote::Raw), mk("[+][+]", Quote::Legacy), mk("-", Quote::Raw), mk("\\-", Quote::Regex), mk("::", Quote::Raw), mk(";", Quote::Raw),
+                mk("Error", Quote::Raw), mk("EndOfInput", Quote::Raw), mk("Newline", Quote::Raw), mk("[a-z]+", Quote::Regex), mk("[a-z]*", Quote::Regex),
+            ];
+            rng.shuffle(&mut pool);
+            let mut out: Vec<TermDef> = vec![];
+            for t in pool {
+                if out.len() < n && !out.iter().any(|o| o.identity() == t.identity()) {
+                    out.push(t);
+                }
+            }
+            out
         }
         Terms::Quoting => {
             // groups of terminals with equal text and different quoting style
@@ -410,6 +436,13 @@ pub fn gen_grammar(rng: &mut Rng, p: &Profile) -> Grammar {
     let n = rng.range(p.n_nts.0, p.n_nts.1);
     let names: Vec<String> = match p.names {
         Names::Plain => PLAIN_NAMES.iter().take(n).map(|s| s.to_string()).collect(),
+        Names::Idents => {
+            let mut pool: Vec<&str> = IDENT_NAMES.to_vec();
+            rng.shuffle(&mut pool);
+            let mut v = vec!["S".to_string()];
+            v.extend(pool.into_iter().take(n - 1).map(|s| s.to_string()));
+            v
+        }
         Names::Clash => {
             let mut pool: Vec<&str> = CLASH_NAMES[1..].to_vec();
             rng.shuffle(&mut pool);
